@@ -36,6 +36,7 @@ uint32_t fc_below(fc_ctx* c, uint32_t n);
 #define FC_SECRET 1u   /* processes a secret: subject of C15 */
 #define FC_AUTH   2u   /* authenticated unwrap: corrupted input must not release plaintext */
 #define FC_SLOW   4u   /* expensive call: sampled less often */
+#define FC_MATH   8u   /* arithmetic layer with caller-owned stack: C07 base mode only */
 #define FC_ANYERR ((err_t)0xFFFFFFFEu)  /* "any error code" in an expect list */
 /* soft variant: the header's \expect condition is of the hard-to-check kind
    (util.h: EXPECT conditions "may be violated ... programs must work stably"),
@@ -54,5 +55,6 @@ extern const fc_desc fc_belt[]; extern const unsigned fc_belt_n;
 extern const fc_desc fc_misc[]; extern const unsigned fc_misc_n;
 extern const fc_desc fc_bign[]; extern const unsigned fc_bign_n;
 extern const fc_desc fc_proto[]; extern const unsigned fc_proto_n;
+extern const fc_desc fc_math[]; extern const unsigned fc_math_n;
 
 #endif
